@@ -198,7 +198,13 @@ def cb_pktmethod(eng, pkt, name, args, kwargs):
 def cbor_dumps(eng, args, kwargs):
     if args[0].t == ITEM:
         return V(TBytes, _dumps()(args[0].z))
-    return fresh(TBytes, 'cbor')
+    r = fresh(TBytes, 'cbor')
+    if args[0].t is TInt:
+        # (assumed, RFC 8949) an unsigned integer encodes to its head only: 1, 2, 3, 5 or 9 octets
+        z = args[0].z
+        eng.assume(z3.Implies(z >= 0, z3.Length(r.z) == z3.If(z < 24, 1, z3.If(z < 256, 2, z3.If(z < 65536, 3,
+                                                               z3.If(z < 4294967296, 5, 9))))))
+    return r
 
 
 EXTERNS = {'cbor2.dumps': cbor_dumps}
@@ -213,7 +219,9 @@ SPECFUNCS = {
                               'contains(b.blocks, x) and x._pcls == tag_of("AdminRecord"), '
                               'flag(unwrap(b.primary).bundle_flags, F_ADMIN)))'),
     'crc_type_ok': (['x'], 'x.crc_type == 0 or x.crc_type == 1 or x.crc_type == 2'),
-    'flags_nonneg_kept': ([], 'forall(p, "Pkt[PrimaryBlock]", implies(old(p.bundle_flags) >= 0, p.bundle_flags >= 0))'),
+    # _update_from_admin can only add the payload-admin bit to a primary block
+    'flags_nonneg_kept': ([], 'forall(p, "Pkt[PrimaryBlock]", p.bundle_flags == old(p.bundle_flags) or '
+                              '(p.bundle_flags == old(p.bundle_flags) + F_ADMIN and not flag(old(p.bundle_flags), F_ADMIN)))'),
     'flags_kept': (['b'], 'b.primary is None or unwrap(b.primary).bundle_flags == old(unwrap(b.primary).bundle_flags)'),
     # every block of the bundle passes its CRC check
     'crc_all_valid': (['b'], '(b.primary is None or crc_ok(unwrap(b.primary))) and '
